@@ -47,7 +47,35 @@ def stale_branch_ok(b, v):
     if not some_edges or not b.edges_dominate(some_edges, v.pos):
         return False
     trig = [e.pos for e in b.calls() if e.method in ("trigger_background_load",)]
-    return bool(trig) and b.dominated_by_any(v.pos, set(trig))
+    if not (bool(trig) and b.dominated_by_any(v.pos, set(trig))):
+        return False
+    # the stale arm is for entries whose *TTL* ran out: it must be entered through the "deadline passed" outcome of a comparison of the clock with
+    # the bare expires_at (not expires_at + grace). Entering it because is_expired() said so also admits entries whose idle timeout ran out.
+    passed = []
+    for blk in range(len(b.blocks)):
+        if b.is_cleanup(blk):
+            continue
+        ss = b.switch_source(blk)
+        if not ss or ss.get("kind") != "cmp" or ss["op"] not in ("Lt", "Ge", "Gt", "Le"):
+            continue
+        a, c = ss["a"], ss["b"]
+        def bare_deadline(o):
+            if not derives_from_deadline(b, o) or derives_from_clock(b, o):
+                return False
+            evs, _, _ = mir.operand_sources(b, o)
+            return not any(e.kind == "assign" and e.data["r"]["k"] == "bin" and e.data["r"]["op"].startswith(("Add", "Sub")) for e in evs)
+        if derives_from_clock(b, a) and bare_deadline(c):
+            op = ss["op"]
+        elif derives_from_clock(b, c) and bare_deadline(a):
+            op = {"Lt": "Gt", "Gt": "Lt", "Le": "Ge", "Ge": "Le"}[ss["op"]]
+        else:
+            continue
+        # op is `now <op> expires_at`; expired outcome:
+        exp_label = {"Lt": "false", "Le": "false", "Ge": "true", "Gt": "true"}[op]
+        if ss.get("neg"):
+            exp_label = "true" if exp_label == "false" else "false"
+        passed.extend(b.edges_by_label(blk).get(exp_label, []))
+    return bool(passed) and b.edges_dominate(passed, v.pos)
 
 
 def value_read_instances(P, res, rid, scope=None):
@@ -75,7 +103,7 @@ def value_read_instances(P, res, rid, scope=None):
                 res.holds(rid, key, "behind the not-expired edge of is_expired on the same entry", where=where,
                           witness=[f"value() {v.loc}", f"is_expired false-edge(s) into bb{[t for _, t in edges]}"])
             elif stale_branch_ok(b, v):
-                res.holds(rid, key, "stale-while-revalidate branch: behind `stale_while_revalidate = Some(_)` and trigger_background_load", where=where,
+                res.holds(rid, key, "stale-while-revalidate branch: behind `now >= expires_at`, `stale_while_revalidate = Some(_)` and trigger_background_load", where=where,
                           witness=[f"value() {v.loc}"])
             else:
                 res.violated(rid, key, f"a resident entry's value is handed out at {v.loc} without is_expired having been consulted for that entry "
@@ -88,7 +116,8 @@ def clause1(P, res):
     rid = "C12-1"
     res.rule(rid, "expiry gate: every CacheEntry::value() on an entry obtained by a map lookup or map iteration is control-dependent on "
                   "the not-expired outcome of is_expired() of that same entry, or lies on the stale-while-revalidate branch "
-                  "(grace configured and a background load triggered)")
+                  "(entered because the clock passed the bare TTL deadline — not because is_expired said so, which would admit idle-expired entries — with a grace "
+                  "configured and a background load triggered)")
     value_read_instances(P, res, rid)
     # direct reads of the `.value` field outside the accessor
     for b in cl.cache_bodies(P):
